@@ -3,7 +3,8 @@ from __future__ import annotations
 
 from .. import primcheck as PC
 from ..core import Report
-from .common import require_fresh_lookups, TRUSTED_WIRE, cfg_class, require_no_errors, wire_results
+from .. import ctor
+from .common import aliasing_event, require_fresh_lookups, TRUSTED_WIRE, cfg_class, require_no_errors, wire_results
 
 META = {
     "level": "proof",
@@ -66,6 +67,12 @@ def run(rep: Report) -> None:
                         f"stepping raises {p.raised[0]}: {p.raised[2]}",
                         key=f"W|raise|{p.raised[0]}|{_fn(p.raised[1])}")
             continue
+        al = next((a for a in (aliasing_event(p) for p in ck.paths) if a), None)
+        if al is not None:
+            rep.refuted("W-step", cfg.label(), al[1],
+                        f"{al[2]} - states read later in the same step (e.g. the origin flow recomputed by the "
+                        "fed link) see the modified value, so the step is not the model's", key=f"W|alias|{_fn(al[1])}")
+            continue
         if ck.mismatches:
             m = ck.mismatches[0]
             rep.refuted(
@@ -79,6 +86,8 @@ def run(rep: Report) -> None:
     rep.analysed["configurations"] = len(cks)
     rep.analysed["symbolic_paths"] = npaths
     require_fresh_lookups(rep)
+    # the abstract worlds build elements from their slots: constructors must fill them
+    ctor.check(rep)
 
     rep.analysed["primitive_runs"] = len(runs)
 
